@@ -120,7 +120,10 @@ def main():
               "  seeds); C11-r6A (`entropy_f or os.urandom`) -> entropy objects that are callable but falsy; C11-r6B",
               "  (reads capped at 256 bytes, the block repeated) -> widths of 2^2048..2^8200 and the necessary condition",
               "  that a draw requests at least log2(width)/8 bytes (`insufficient-entropy`). The C01 and C16 red-team",
-              "  agents of rounds 5/6 ended without output (tool limits) and contributed nothing.",
+              "  agents of rounds 5/6 ended without output (tool limits); a round-7 retry gave C01-r7A (symmetric transcript",
+              "  sorted by the first 4 message bytes only: wrong when the two messages share a 4-byte prefix) -> C01 runs",
+              "  in which the two Symmetric ends' scalars are found by a birthday walk in the reference model so that their",
+              "  messages agree in the first or last k bytes but differ elsewhere.",
               "* round-3 change C07-r3A (`_started` set only when start() succeeds, so a start() after a start() whose",
               "  entropy function raised returns the one and only message) was **not kept**: the statement bounds the",
               "  number of messages returned (at most one) and fixes the error only for calls after a message was",
